@@ -165,6 +165,11 @@ type Client struct {
 	// subs is the set of active subscriptions by id.
 	subs map[uint32]*Subscription
 
+	// staleSubs contains the subscriptions which have been deleted in order
+	// to recreate them but which could not be created again yet.
+	// It is guarded by subMux.
+	staleSubs []*Subscription
+
 	// pendingAcks contains the pending subscription acknowledgements
 	// for all active subscriptions.
 	pendingAcks []*ua.SubscriptionAcknowledgement
